@@ -250,6 +250,76 @@ def py_worker(task):
     return _fin(res)
 
 
+def cxx_worker(task):
+    """C++ IsValid<Enum>(backing integer) scanned over the same intervals: for a closed enum it must hold
+    exactly for declared values and ranges (nothing at or above 2^w); open enums have no generated check."""
+    from . import cxxwl
+    from ..engines import cxx as CX
+    d = cxxwl._DESCS[task["di"]]
+    m = Model(d["file"])
+    res = {"evals": 0, "nontrivial": set(), "viol": [], "samples": [], "points": 0, "enums": 0,
+           "exhaustive_enums": 0, "shapes": {}, "widths": {}}
+
+    def V(sig, case):
+        case.update({"desc": d["name"], "profile": d["profile"], "gen_seed": d["gen_seed"], "pdl": d["text"]})
+        res["viol"].append(("C15", "C15|cxx|" + sig, case))
+    h = CX.CxxHarness("c15_" + d["name"], d["file"], d["text"], exclude=cxxwl.excluded_for_cxx(d["file"]))
+    try:
+        h.generate()
+        h.build({}, "asan")
+        have = set(h.enums())
+    except CX.CxxError:
+        return _fin(res)   # C14 / C10 report generation and compile failures
+    for decl in m.file["declarations"]:
+        if decl["kind"] != "enum_declaration" or decl["id"] not in have:
+            continue
+        e = m.enum(decl["id"])
+        if e.default:
+            continue
+        res["enums"] += 1
+        shape = "closed:%s" % ("ranged" if e.ranges else "plain")
+        if e.width <= 16:
+            res["exhaustive_enums"] += 1
+        for lo, hi in intervals(e):
+            case = {"enum": decl["id"], "width": e.width, "interval": [lo, hi]}
+            try:
+                got = h.enum_is_valid(decl["id"], lo, hi)
+            except CX.CxxError as ex:
+                V("scan-failed|%s" % shape, dict(case, observed=str(ex)[-600:]))
+                continue
+            res["evals"] += 1
+            res["points"] += hi - lo + 1
+            want = []
+            cuts = {lo, hi + 1}
+            for v in e.values:
+                cuts.update((v, v + 1))
+            for s_, t_, _ in e.ranges:
+                cuts.update((s_, t_ + 1))
+            cuts = sorted(c for c in cuts if lo <= c <= hi + 1)
+            for a, b in zip(cuts, cuts[1:]):
+                ok = bool(e.valid(a)) and a <= umax(e.width)
+                if want and want[-1][2] == ok and want[-1][1] + 1 == a:
+                    want[-1][1] = b - 1
+                else:
+                    want.append([a, b - 1, ok])
+            got = [[a, b, bool(c)] for a, b, c in got]
+            merged = []
+            for a, b, c in got:
+                if merged and merged[-1][2] == c and merged[-1][1] + 1 == a:
+                    merged[-1][1] = b
+                else:
+                    merged.append([a, b, c])
+            for run in merged:
+                res["nontrivial"].add(common.h("cxx", d["name"], decl["id"], run[0], run[1], run[2]))
+            if merged != want:
+                x, gc, wc = first_diff([[a, b, str(c)] for a, b, c in merged], [[a, b, str(c)] for a, b, c in want])
+                where = "tag" if x in e.values else "range" if any(s_ <= x <= t_ for s_, t_, _ in e.ranges) else \
+                        "above-2^w" if x > umax(e.width) else "gap"
+                V("%s|%s:%s" % ("accepts-invalid" if gc == "True" else "rejects-valid", shape, where),
+                  dict(case, x=x, observed=gc, expected=wc))
+    return _fin(res)
+
+
 def _fin(res):
     res["nontrivial"] = sorted(res["nontrivial"])
     return res
@@ -278,6 +348,11 @@ def run(tier):
     from . import pywl
     pd = pywl.prepare(check, tier, profiles=["enum", "bitfield", "inherit", "mix", "optional"], n_per_profile=n)
     results += common.pmap(py_worker, [{"di": i} for i in range(len(pd))])
+    from . import cxxwl
+    cd = cxxwl.prepare(check, tier, profiles=["enum", "bitfield"], n_per_profile=1 if tier == "quick" else 4)
+    cd_idx = [i for i, x in enumerate(cd) if A.endianness(x["file"]) == A.LE]   # IsValid does not depend on byte order
+    cres = common.pmap(cxx_worker, [{"di": i} for i in cd_idx], nproc=8)
+    results += cres
     tot = {"evals": 0, "nontrivial": set(), "samples": [], "points": 0, "enums": 0, "exhaustive_enums": 0,
            "shapes": {}, "widths": {}}
     for r in results:
@@ -295,7 +370,8 @@ def run(tier):
     cov = {"evaluations": tot["evals"], "distinct_nontrivial": len(tot["nontrivial"]), "rule": RULE,
            "samples": tot["samples"] or [{"note": "none"}], "integers_probed": tot["points"],
            "enums": tot["enums"], "enums_scanned_exhaustively": tot["exhaustive_enums"],
-           "enum_shapes": tot["shapes"], "enum_widths": tot["widths"], "backends": ["rust", "python"],
+           "enum_shapes": tot["shapes"], "enum_widths": tot["widths"], "backends": ["rust", "python", "cxx"],
+           "cxx_closed_enums_scanned": sum(r["enums"] for r in cres), "cxx_integers_probed": sum(r["points"] for r in cres),
            "exhaustive": False,
            "explanation": "exhaustive over all 2^w integers for every enum with w <= 16; boundary neighbourhoods beyond"}
     return check.finish(cov, assumptions=["model of tags/ranges/default in pv/refmodel.py EnumInfo",
